@@ -344,6 +344,12 @@ func (db *DB) Merge() error {
 					skipEntry = true
 				}
 
+				// a record of a transaction that never committed (a failed or interrupted Commit leaves
+				// its first records in the segment) is dead: rewriting it would commit it
+				if _, ok := db.committedTxIds[entry.Meta.txID]; !ok {
+					skipEntry = true
+				}
+
 				// check if we have a new entry with same key and bucket
 				// (only key/value entries are indexed there: a set, list or sorted-set entry that
 				// happens to share its bucket and key with a key/value pair must not be judged by it)
